@@ -49,7 +49,9 @@ COND_N = [None, ["s", "FLAG", "=", 1], ["s", "V", ">", 4], ["s", "FLAG", "=", 0]
 # a condition with OR in it (the clause reads WHEN MATCHED AND a OR b: Snowflake takes it as AND (a OR b))
 COND_M += [["or", ["s", "FLAG", "=", 1], ["s", "V", ">", 6]], ["or", ["t", "V", "<=", 2], ["s", "V", ">", 6]], ["or", ["t", "W", "=", "a"], ["t", "V", ">", 7]]]
 SETS = [[["V", "s", "V"]], [["V", "c", 77]], [["W", "s", "W"]], [["V", "s", "V"], ["W", "s", "W"]], [["V", "c", 0], ["W", "c", "upd"]],
-        [["V", "t+", 1]]]
+        [["V", "t+", 1]], [["W", "rr", None]], [["V", "s", "V"], ["W", "rr", None]]]
+# an extra predicate on the target inside ON (history-table style): only the target rows that satisfy it are joined
+ON_EXTRA = [None, None, None, ["t", "V", ">", 4], ["t", "W", "=", "a"], ["t", "V", "<=", 4]]
 INSERTS = [["cols", ["K", "V", "W"], [["s", "K"], ["s", "V"], ["s", "W"]]],
            ["nocols", None, [["s", "K"], ["s", "V"], ["s", "W"]]],
            ["cols", ["K", "W"], [["s", "K"], ["c", "ins"]]],
@@ -90,6 +92,7 @@ def gen_cases(tier: str, seed: int):
             if clauses[0][2] == "delete":
                 clauses[0] = ["M", None, "delete"]
         case = {
+            "on_extra": None if fail else r.choice(ON_EXTRA),
             "t": _rows_t(r), "s": _rows_s(r), "clauses": clauses, "variant": r.choice(VARIANTS),
             "two_keys": False, "txn": r.random() < 0.15 and not fail, "notnull": fail,
         }
@@ -175,14 +178,14 @@ def _cond_eval(c: list | None, t: list | None, s: list) -> bool:
     return _cmp(t[TCOL[col]], op, s[SCOL[val]])
 
 
-def model_merge(t_rows: list, s_rows: list, clauses: list) -> tuple[list, dict]:
+def model_merge(t_rows: list, s_rows: list, clauses: list, on_extra: list | None = None) -> tuple[list, dict]:
     counts = {"inserted": 0, "updated": 0, "deleted": 0}
     by_key = {s[0]: s for s in s_rows if s[0] is not None}
     out = []
     matched_keys = set()
     for t in t_rows:
         s = by_key.get(t[0]) if t[0] is not None else None
-        if s is None:
+        if s is None or not _cond_eval(on_extra, t, s):
             out.append(list(t))
             continue
         matched_keys.add(t[0])
@@ -199,6 +202,8 @@ def model_merge(t_rows: list, s_rows: list, clauses: list) -> tuple[list, dict]:
                         new[TCOL[col]] = s[SCOL[val]]
                     elif kind == "c":
                         new[TCOL[col]] = val
+                    elif kind == "rr":
+                        new[TCOL[col]] = None if s[SCOL["W"]] is None else (s[SCOL["W"]] * 2).replace("x", "q")
                     else:
                         new[TCOL[col]] = None if t[TCOL[col]] is None else t[TCOL[col]] + val
                 counts["updated"] += 1
@@ -241,7 +246,7 @@ def merge_sql(case: dict) -> str:
     else:
         ta, sa = "TGT", "SRC"
         into, using = tname, sname
-    parts = [f"MERGE INTO {into} USING {using} ON {ta}.K = {sa}.K"]
+    parts = [f"MERGE INTO {into} USING {using} ON {ta}.K = {sa}.K" + _cond_sql(case.get("on_extra"), ta, sa)]
     for cl in case["clauses"]:
         if cl[0] == "M":
             head = f"WHEN MATCHED{_cond_sql(cl[1], ta, sa)} THEN "
@@ -250,7 +255,8 @@ def merge_sql(case: dict) -> str:
             else:
                 sets = []
                 for col, kind, val in cl[3]:
-                    rhs = f"{sa}.{val}" if kind == "s" else _lit(val) if kind == "c" else f"{ta}.{col} + {val}"
+                    rhs = (f"{sa}.{val}" if kind == "s" else _lit(val) if kind == "c" else
+                           f"REGEXP_REPLACE({sa}.W || {sa}.W, 'x', 'q')" if kind == "rr" else f"{ta}.{col} + {val}")
                     sets.append(f"{ta}.{col} = {rhs}" if v not in ("noalias", "noalias-qualified") else f"{col} = {rhs}")
                 parts.append(head + "UPDATE SET " + ", ".join(sets))
         else:
@@ -271,6 +277,7 @@ def features(case: dict) -> dict:
     return {
         "several-target-rows-per-matched-key": dup_matched,
         "target-condition": any(cl[0] == "M" and cl[1] and _on_target(cl[1]) for cl in case["clauses"]),
+        "on-extra": case.get("on_extra") is not None,
         "n_matched_clauses": sum(1 for cl in case["clauses"] if cl[0] == "M"),
         "n_insert_clauses": sum(1 for cl in case["clauses"] if cl[0] == "N"),
     }
@@ -311,7 +318,7 @@ def run_case(case: dict, env: core.Env) -> None:
         cur.execute(f"INSERT INTO BYST VALUES {_vals(case['t'])}")
     if case["s"]:
         cur.execute(f"INSERT INTO SRC VALUES {_vals(case['s'])}")
-    exp_rows, exp_counts = model_merge(case["t"], case["s"], case["clauses"])
+    exp_rows, exp_counts = model_merge(case["t"], case["s"], case["clauses"], case.get("on_extra"))
     f = features(case)
     ftag = (
         f"{'several' if f['several-target-rows-per-matched-key'] else 'single'}-target-rows-per-key/"
@@ -361,6 +368,13 @@ def run_case(case: dict, env: core.Env) -> None:
     env.count("cmp_target")
     got = read("TGT", own)
     exp = Counter(map(tuple, exp_rows))
+    if case.get("on_extra") is not None:
+        # target rows that do not satisfy the ON clause are no part of the merge at all: whatever else happens, they stay
+        outside = Counter(tuple(t) for t in case["t"] if not _cond_eval(case["on_extra"], t, [None, None, None, None]))
+        env.count("cmp_rows_outside_on")
+        if outside - got:
+            env.witness("C12/target-contents/rows-that-do-not-satisfy-ON-were-changed", f"{sql}: missing untouched rows {dict(outside - got)}; t={case['t']} s={case['s']}"[:1500])
+            return
     if got != exp:
         env.witness(f"C12/target-contents/{ftag}", f"{sql}: extra {dict(got - exp)} missing {dict(exp - got)}; t={case['t']} s={case['s']}"[:1500])
     # ---- counts
